@@ -300,4 +300,10 @@ def Regular (cfg : Cfg) (ds : List Rec) : Prop :=
 
 instance (cfg : Cfg) (ds : List Rec) : Decidable (Regular cfg ds) := by unfold Regular; infer_instance
 
+/-- no record other than a dose follows a dose record of its individual at the same time stamp -/
+def NoTie (ds : List Rec) : Prop :=
+  ds.Pairwise (fun x y => y.id = x.id → y.time = x.time → x.amt ≠ 0 → y.amt > 0)
+
+instance (ds : List Rec) : Decidable (NoTie ds) := by unfold NoTie; infer_instance
+
 end Pharmpy.C14
